@@ -14,7 +14,7 @@ a pool; kind 'a': attribute (property) of an object drawn from a pool.
 
 # pools: name -> list of alternatives; strings starting with '@' are store references of the purity session's shared pool
 POOLS = {
-    'img': ['@IMG', '@ISQ', '@A', '@IMGI', '@IMGF', '@IMGT', '@IMGZ'],
+    'img': ['@IMG', '@ISQ', '@A', '@IMGI', '@IMGF', '@IMGT', '@IMGZ', '@CX'],
     'sq': ['@ISQ', '@ISQ', '@G2'],
     'real2d': ['@A', '@O', '@B', '@IMG', '@ISQ', '@IMGF', '@IMGT', '@IMGZ', '@OZS'],
     'any2d': ['@A', '@O', '@CX', '@IMG', '@M', '@MB', '@IMGI', '@IMGT', '@IMGZ', '@OZS'],
